@@ -40,12 +40,17 @@ class C17(L1Prop):
             boot = f"boot listen={lsrc}:{nl} dir={dsrc} allow={allow} versions={vsrc} days={ysrc}"
             ops = [boot]
             a = 0
+            keep = k % 2 == 1          # every other configuration: one persistent connection per address, shared by all clients
             def at():
                 nonlocal a
                 a += 1
-                return f"http@{a % nl}"
+                return f"{'httpk' if keep else 'http'}@{a % nl}"
+            if keep:
+                # the clients take turns on the shared connections
+                ops += [f"{at()} POST av hyph=nil hyph={c} history b:0,{c}" for c in (1, 2, 3)]
+                ops += [f"{at()} GET gcv hyph=nil hyph={c} absent e" for c in (3, 1, 2)]
             for c in (1, 2, 3):
-                ops += [f"{at()} POST av hyph=nil hyph={c} history b:1,{c}",
+                ops += [f"{at()} POST av hyph={'latest:%d' % c if keep else 'nil'} hyph={c} history b:1,{c}",
                         f"{at()} POST av hyph=latest:{c} hyph={c} history chunks:2,3",
                         f"{at()} POST as hyph=latest:{c} hyph={c} snapshot b:9,{c}"]
                 for i in range(8):
